@@ -211,17 +211,26 @@ let exec toks : string * string =
         | _ -> failwith "bad trigger spec") in
     let t = nat_of_int (int_of_string tid) in
     ts := M.upd !ts t st; sts := M.upd !sts t st; ("ok", "-")
-  | "A" :: now :: rest ->
+  | (("A" | "AXP" | "AXR") as kind) :: now :: rest ->
     let op = parse_api rest in
     let nowz = z_of_string now in
-    let (((q', ts'), evs), res) = M.api !ops M.nft_exec nowz op !q !ts in
+    (* AXP / AXR: the same model function over a queue whose next Push / Remove fails (a transient queue failure);
+       when the failure was hit, the error the call returns is the queue's (printed EQF) *)
+    let fail_push = ref (kind = "AXP") and fail_remove = ref (kind = "AXR") in
+    let o = !ops in
+    let faulty = { o with
+                   M.q_push = (fun e qq -> if !fail_push then (fail_push := false; None) else o.M.q_push e qq);
+                   M.q_remove = (fun k qq -> if !fail_remove then (fail_remove := false; None) else o.M.q_remove k qq) } in
+    let (((q', ts'), evs), res) = M.api faulty M.nft_exec nowz op !q !ts in
     q := q'; ts := ts';
+    let hit = (kind = "AXP" && not !fail_push) || (kind = "AXR" && not !fail_remove) in
+    if kind <> "A" then spec_ok := false;
     let spec_out =
       if !spec_ok then begin
         let ((r', sts'), sres) = M.spec_api M.nft_exec nowz op !reg !sts in
         reg := r'; sts := sts'; show_sresult sres
       end else "-" in
-    (show_result res ^ " " ^ calls evs, spec_out)
+    ((if hit then "EQF" else show_result res) ^ " " ^ calls evs, spec_out)
   | [("F" | "FX") as kind; now; thr; hn; hg] ->
     apply_hint hn hg;
     spec_ok := false;
@@ -282,7 +291,7 @@ let () =
            let toks = tokens line in
            let (m, s) = exec toks in
            (match toks with
-            | ("A" | "F" | "FX" | "X") :: _ ->
+            | ("A" | "AXP" | "AXR" | "F" | "FX" | "X") :: _ ->
               Buffer.add_string out (m ^ " | " ^ registry ()); Buffer.add_char out '\t';
               Buffer.add_string out (s ^ " | " ^ (if !spec_ok then spec_registry () else "-"))
             | _ -> Buffer.add_string out m; Buffer.add_char out '\t'; Buffer.add_string out s);
